@@ -11,10 +11,12 @@ one() {
   work=$(mktemp -d /tmp/seedrun-XXXXXX)
   cp -a /repo "$work/chg"
   if ! git -C "$work/chg" apply "$d/patch.diff" 2>/dev/null; then echo "$id PATCH-DOES-NOT-APPLY" > "$out/$id.res"; rm -rf "$work"; return; fi
-  checks=$(python3 -c "import json,sys; print(' '.join(x.strip() for x in json.load(open('$d/meta.json'))['caught_by'].split(',')))")
+  checks=$(python3 -c "import json,sys; print(' '.join(x.strip() for x in json.load(open('$d/meta.json'))['caught_by'].split(',') if x.strip()))")
+  tier=$(python3 -c "import json; print(json.load(open('$d/meta.json')).get('tier','quick'))")
+  if [ -z "$checks" ]; then echo "$id KNOWN-MISS (recorded as outside the stated bounds; see meta.json history)" > "$out/$id.res"; rm -rf "$work"; return; fi
   res=""
   for c in $checks; do
-    o=$(cd /verif && MASA_REPO="$work/chg" VERIF_EVIDENCE_DIR="$work/ev" VERIF_REPLAY_DIR="$work/rp" ./check "$c" --tier quick 2>&1); rc=$?
+    o=$(cd /verif && MASA_REPO="$work/chg" VERIF_EVIDENCE_DIR="$work/ev" VERIF_REPLAY_DIR="$work/rp" ./check "$c" --tier "$tier" 2>&1); rc=$?
     n=$(echo "$o" | grep -c '^VIOLATION')
     res="$res $c:rc=$rc:violations=$n"
   done
@@ -25,5 +27,6 @@ export -f one
 ls -d seeded/* | grep -E -e "$pat" | xargs -P "$par" -I{} bash -c "one {} $out"
 cat "$out"/*.res | sort
 echo "--- seeds not reported by their own check:"
-for f in "$out"/*.res; do id=$(basename "$f" .res); own=${id%%-*}; grep -q " $own:rc=1:violations=[1-9]" "$f" || cat "$f"; done
+for f in "$out"/*.res; do id=$(basename "$f" .res); own=${id%%-*}; grep -q " $own:rc=1:violations=[1-9]\|KNOWN-MISS" "$f" || cat "$f"; done
+echo "--- known misses (kept for the record, not claimed):"; grep -h KNOWN-MISS "$out"/*.res
 rm -rf "$out"
